@@ -211,6 +211,11 @@ pub(crate) fn days_to_wyear(days: i32) -> u32 {
     let month = month as i32;
     let day = day as i32;
 
+    // The formula expects a year numbering with a year 0 and only works for positive years.
+    // As the calendar repeats every 400 years (exactly 20871 weeks), the year can be moved into 400..=799.
+    let year = if year < 0 { year + 1 } else { year };
+    let year = year.rem_euclid(400) + 400;
+
     let a = if month <= 2 { year - 1 } else { year };
     let b = a / 4 - a / 100 + a / 400;
     let c = (a - 1) / 4 - (a - 1) / 100 + (a - 1) / 400;
